@@ -17,7 +17,14 @@
      any other one-character string: that ASCII character itself.
 
    A column after an invalid byte on the same line is not defined by the statement ("characters");
-   such positions are exported with ok = FALSE and only their line is compared. *)
+   such positions are exported with ok = FALSE and only their line is compared.
+
+   Byte order mark: a file may start with the UTF-8 BOM (EF BB BF).  The BOM is not part of the
+   text: every expected offset, line and column is what SrcText gives for the text WITHOUT the
+   BOM, offsets counted from the first byte after it (that is the convention of the unchanged
+   code, whose FileInfo holds the contents after the BOM; the statement leaves the origin of
+   offsets open, lines and columns it does not).  bom = TRUE makes the driver put the three bytes
+   in front of the concretised text; nothing else in the case changes. *)
 EXTENDS SrcText, TLC, Json
 
 CONSTANTS
@@ -26,10 +33,12 @@ CONSTANTS
   FinalUnits,   \* units that run to end of file (unterminated constructs); only as the last unit
   GapUnits,     \* skeleton shape: units that may fill a gap between the skeleton tokens
   Shape,        \* "free" | "skel"
-  ExportMin     \* export only cases with at least this many units (simulation: = depth)
+  ExportMin,    \* export only cases with at least this many units (simulation: = depth)
+  Boms,         \* subset of BOOLEAN: does the file start with a byte order mark
+  BomMaxLen     \* free shape: maximal number of units of a file WITH a byte order mark
 
-VARIABLES units, closed, stage
-vars == <<units, closed, stage>>
+VARIABLES units, closed, stage, bom
+vars == <<units, closed, stage, bom>>
 
 -----------------------------------------------------------------------------
 (* the unit table *)
@@ -108,26 +117,27 @@ UnitRec(us, i) ==
 
 Case ==
   LET t == Flatten(units)
-  IN [shape |-> Shape, text |-> t,
+  IN [shape |-> Shape, bom |-> IF bom THEN 1 ELSE 0, text |-> t,
       nlines |-> Line(t, Len(t)),
       unit |-> [i \in 1..Len(units) |-> UnitRec(units, i)],
       bnd |-> [k \in 1..(Len(t) + 1) |-> PosAt(t, k - 1)]]
 
 -----------------------------------------------------------------------------
 (* free shape: any sequence of FreeUnits, optionally closed by one FinalUnit *)
-FreeInit == units = <<>> /\ closed = FALSE /\ stage = 0
+FreeInit == units = <<>> /\ closed = FALSE /\ stage = 0 /\ bom \in Boms
 FreeNext ==
-  /\ ~closed /\ Len(units) < MaxLen
+  /\ ~closed /\ Len(units) < (IF bom THEN BomMaxLen ELSE MaxLen)
   /\ \/ \E u \in FreeUnits : units' = Append(units, u) /\ closed' = FALSE
      \/ \E u \in FinalUnits : units' = Append(units, u) /\ closed' = TRUE
-  /\ UNCHANGED stage
+  /\ UNCHANGED <<stage, bom>>
 
 (* skeleton shape:  message <gap> SP <gap> a <gap> { <gap> } <gap>
    with every gap empty or one GapUnit; syntactically valid whenever the gaps hold only white
    space and comments, so the AST has composite nodes whose spans cross the units *)
 Skel == <<"kwmsg", "sp", "id", "lb", "rb">>
-SkelInit == units = <<>> /\ closed = FALSE /\ stage = 0
+SkelInit == units = <<>> /\ closed = FALSE /\ stage = 0 /\ bom \in Boms
 SkelNext ==
+  /\ UNCHANGED bom
   /\ stage < Len(Skel)
   /\ stage' = stage + 1
   /\ \/ units' = Append(units, Skel[stage + 1])
